@@ -383,6 +383,9 @@ func runCase(rq *request) M {
 			e.RegisterVars(map[string]interface{}{"w": w})
 		}
 	}
+	if eng := engineObservations(ast0, input, vars); eng != nil {
+		ev["eng"] = eng
+	}
 	out, rawRes := safeEvalRaw(e, input)
 	ev["out"] = out
 
